@@ -225,6 +225,11 @@ def r09_7(ctx) -> None:
 
 
 def run(ctx) -> None:
+    # "decoding returns only after the integrity check of the transport passed": the decrypt idioms of C02; header codec of C19
+    from .c02 import r02_4
+    from .c19 import r19_4_5
+    ctx.guard_as("R09.9", r02_4)
+    ctx.guard_as("R09.9", r19_4_5)
     # "plus the kid of a key picked from a key set": the key-selection rule of C14 (all routes into a set record / honour the kid)
     from .c14 import r14_2
     ctx.guard(r14_2, "R09.8")
